@@ -49,6 +49,7 @@ func (x *Exec) callCommon(fr *Frame, st *State, val ssa.Value, cc *ssa.CallCommo
 	}
 	if cc.IsInvoke() {
 		recv := x.value(fr, cc.Value)
+		x.atCall(fr, st, cc.Method.Name(), nil, append([]V{recv}, args...), pos)
 		return x.invoke(fr, st, cc, recv, args, rt, pos)
 	}
 	switch callee := cc.Value.(type) {
@@ -112,25 +113,7 @@ func (x *Exec) callFunc(fr *Frame, st *State, callee *ssa.Function, bindings []V
 	if callee.Origin() != nil {
 		key = fullFuncKey(callee.Origin())
 	}
-	// at-call clauses of the caller
-	var atc *CallContract
-	if fr.contract != nil {
-		fr.callOrd[funcKey(callee)]++
-		atc = fr.contract.Calls[fmt.Sprintf("%s#%d", funcKey(callee), fr.callOrd[funcKey(callee)])]
-		if atc != nil {
-			for i, a := range atc.Asserts {
-				f := x.evalClauseCall(fr, a, st, callee, args)
-				x.addObl(&Obligation{Name: fmt.Sprintf("%s#at-call.%s.%d", funcKey(fr.fn), funcKey(callee), i+1), Kind: "assert", Tag: a.Tag,
-					Func: funcKey(fr.fn), Pos: x.prog.pos(pos), Guard: st.guard, Formula: f, Src: a.Src})
-				x.assume(st.guard, f)
-			}
-			for _, a := range atc.Assumes {
-				f := x.evalClauseCall(fr, a, st, callee, args)
-				x.note("at-call assume in %s before %s: %s", funcKey(fr.fn), funcKey(callee), a.Src)
-				x.assume(st.guard, f)
-			}
-		}
-	}
+	x.atCall(fr, st, funcKey(callee), callee, args, pos)
 	// library models first
 	if v, ok := x.libCall(fr, st, key, callee, args, rt, pos); ok {
 		return v
@@ -147,9 +130,21 @@ func (x *Exec) callFunc(fr *Frame, st *State, callee *ssa.Function, bindings []V
 		x.havocAll(st, "call to external function "+key+" without contract")
 		return x.freshOfType(st, rt, "ext")
 	}
-	if x.inStack(callee) || len(x.stack) >= x.maxDepth {
-		x.havocAll(st, "recursive or too deep call to "+key+" (not inlined)")
-		return x.freshOfType(st, rt, "rec")
+	if x.inStack(callee) || len(x.stack) >= x.maxDepth || (!(c != nil && c.Inline == "always") && !x.inlinable(callee, c)) {
+		// not inlined: havoc what the callee may write, results unconstrained
+		mods, all := x.funcMods(callee)
+		if all {
+			x.havocAll(st, "call to "+key+" (not inlined: recursive, too large or with uncontracted loops; unknown effects)")
+		} else {
+			x.note("call to %s not inlined (recursive, too large or with uncontracted loops): its results are unconstrained and the heap components it may write are havocked", key)
+			for _, m := range mods {
+				x.havocKey(st, m.key, m.t)
+			}
+			na := x.s.declare("alloc", "Int")
+			x.assume("true", "(>= "+na+" "+st.alloc+")")
+			st.alloc = na
+		}
+		return x.freshOfType(st, rt, "opaque")
 	}
 	// inline
 	sub := &Frame{fn: callee, params: args, bindings: bindings, contract: c, safety: fr.safety, depth: fr.depth + 1}
@@ -165,6 +160,57 @@ func (x *Exec) callFunc(fr *Frame, st *State, callee *ssa.Function, bindings []V
 	x.assume(g, out.guard)
 	st.guard = g
 	return x.packResults(rt, rs)
+}
+
+// inlinable: small, loop-free (or with invariants for every loop) callees are
+// inlined; everything else is treated as opaque.
+func (x *Exec) inlinable(fn *ssa.Function, c *Contract) bool {
+	n := 0
+	for _, b := range fn.Blocks {
+		n += len(b.Instrs)
+	}
+	if n > 400 {
+		return false
+	}
+	loops := findLoops(fn)
+	for _, li := range loops {
+		if c == nil || c.Loops[li.ordinal] == nil {
+			return false
+		}
+	}
+	return true
+}
+
+// atCall processes the caller's at-call clauses for the k-th call of `name`.
+func (x *Exec) atCall(fr *Frame, st *State, name string, callee *ssa.Function, args []V, pos token.Pos) {
+	if fr.contract == nil || x.specMode > 0 {
+		return
+	}
+	fr.callOrd[name]++
+	ord := fr.callOrd[name]
+	atc := fr.contract.Calls[fmt.Sprintf("%s#%d", name, ord)]
+	if atc == nil {
+		return
+	}
+	if fr.seenCalls == nil {
+		fr.seenCalls = map[string]bool{}
+	}
+	fr.seenCalls[fmt.Sprintf("%s#%d", name, ord)] = true
+	for i, a := range atc.Asserts {
+		f := x.evalClauseCall(fr, a, st, callee, args)
+		oname := fmt.Sprintf("%s#at-call.%s.%d.%d", funcKey(fr.fn), name, ord, i+1)
+		if a.Tag != "" {
+			oname = fmt.Sprintf("%s#%s@%s.%d", funcKey(fr.fn), a.Tag, name, ord)
+		}
+		x.addObl(&Obligation{Name: oname, Kind: "assert", Tag: a.Tag,
+			Func: funcKey(fr.fn), Pos: x.prog.pos(pos), Guard: st.guard, Formula: f, Src: a.Src})
+		x.assume(st.guard, f)
+	}
+	for _, a := range atc.Assumes {
+		f := x.evalClauseCall(fr, a, st, callee, args)
+		x.note("at-call assume in %s before %s: %s", funcKey(fr.fn), name, a.Src)
+		x.assume(st.guard, f)
+	}
 }
 
 // callContract performs a modular call: assert requires, havoc assigns,
